@@ -509,25 +509,25 @@ class Explorer:
         return r != "unsat"
 
     def branch(self, cond):
+        t_ok = self._feasible(cond)
+        f_ok = self._feasible(not_(cond))
+        if t_ok and not f_ok:
+            self.solver.add(cond)
+            self.pc.append(cond)
+            return True
+        if f_ok and not t_ok:
+            self.solver.add(not_(cond))
+            self.pc.append(not_(cond))
+            return False
+        if not t_ok and not f_ok:
+            self.infeasible += 1
+            raise PathAbort()
+        # genuine fork: only these are recorded as decisions / consume the replayed prefix
         if self.pos < len(self.prefix):
             choice = self.prefix[self.pos]
         else:
-            t_ok = self._feasible(cond)
-            f_ok = self._feasible(not_(cond))
-            if t_ok and f_ok:
-                choice = True
-                self.pending.append(self.decisions + [False])
-            elif t_ok:
-                self.solver.add(cond)
-                self.pc.append(cond)
-                return True
-            elif f_ok:
-                self.solver.add(not_(cond))
-                self.pc.append(not_(cond))
-                return False
-            else:
-                self.infeasible += 1
-                raise PathAbort()
+            choice = True
+            self.pending.append(self.decisions + [False])
         self.pos += 1
         self.decisions.append(choice)
         c = cond if choice else not_(cond)
